@@ -248,6 +248,40 @@ def git_colorize(lines, style='default', rng=None):
     return out
 
 
+def git_colorize_combined(lines, nparents, reset='m'):
+    """git's default palette on a combined diff (as `git show <merge>` with color.ui=always writes it): a line is red when
+    its prefix holds a '-', green when it holds a '+', and a context line is followed by a bare reset."""
+    rs = E + '[' + reset
+    out = []
+    in_hunk = False
+    for l in lines:
+        if l.startswith('diff ') or l.startswith('commit '):
+            in_hunk = False
+        if l.startswith('@@@'):
+            in_hunk = True
+            k = l.find('@@@', 3)
+            k2 = k + 3
+            while k >= 0 and k2 < len(l) and l[k2] == '@':
+                k2 += 1
+            out.append(E + '[36m' + l[:k2] + rs + l[k2:] if k >= 0 else E + '[36m' + l + rs)
+        elif not in_hunk:
+            if l.startswith(('diff ', 'index ', '--- ', '+++ ', 'new file', 'deleted file', 'mode ')):
+                out.append(E + '[1m' + l + rs)
+            else:
+                out.append(l)
+        else:
+            prefix = l[:nparents]
+            if l.startswith('\\'):
+                out.append(l)
+            elif '-' in prefix:
+                out.append(E + '[31m' + l + rs)
+            elif '+' in prefix:
+                out.append(E + '[32m' + l + rs)
+            else:
+                out.append(l + rs)
+    return out
+
+
 # ---------------------------------------------------------------- mutators
 
 BIG_NUMBERS = ['0', '4294967295', '4294967296', '18446744073709551615', '18446744073709551616',
@@ -264,7 +298,7 @@ def mutate(rng, data):
     import re
     for _ in range(rng.choice([1, 1, 2, 3])):
         lines = data.split(b'\n')
-        op = rng.randrange(16)
+        op = rng.randrange(17)
         if not lines:
             lines = [b'']
         k = rng.randrange(len(lines))
@@ -295,7 +329,7 @@ def mutate(rng, data):
             lines[k] = lines[k][:rng.randrange(len(lines[k]) + 1)]
         elif op == 9:    # splice a header-ish line
             lines.insert(k, rng.choice([b'diff --git ', b'diff --git a', b'diff --git "a/x" "b/x', b'@@ foo @@',
-                                        b'@@ -1 +1 @@', b'@@@ -1 -1 +1 @@@', b'--- ', b'+++ ', b'--- "', b'+++ b/\t',
+                                        b'@@ -1 +1 @@', b'@@@ -1 -1 +1 @@@', b'@@ -0,0 +0,0 @@', b'@@ -0 +0 @@', b'@@@ -0,0 -0,0 +0,0 @@@', b'--- ', b'+++ ', b'--- "', b'+++ b/\t',
                                         b'rename from ', b'rename to', b'Binary files  and  differ', b'Submodule x',
                                         b'Submodule x 123..456:', b'commit ', b'commit deadbeef', b'index',
                                         b'<<<<<<< ', b'=======', b'>>>>>>> ', b'||||||| ', b'++<<<<<<< HEAD',
@@ -316,6 +350,12 @@ def mutate(rng, data):
         elif op == 14:   # replace first char
             if lines[k]:
                 lines[k] = rng.choice([b'+', b'-', b' ', b'\\', b'@', b'\t', '日'.encode(), b'\x1b[31m-']) + lines[k][1:]
+        elif op == 16:   # every coordinate of a hunk header becomes the same extreme number
+            hh = [i for i, l in enumerate(lines) if l.startswith(b'@@')]
+            if hh:
+                i = rng.choice(hh)
+                v = rng.choice(['0', '0', '1'] + BIG_NUMBERS).encode()
+                lines[i] = re.sub(rb'\d+', lambda _m: v, lines[i])
         elif op == 15:   # delete a block
             j = min(len(lines), k + rng.randint(1, 6))
             del lines[k:j]
